@@ -7,6 +7,7 @@
  */
 
 #include <sstream>
+#include <cstdint>
 
 #include "timestamp.h"
 
@@ -30,6 +31,9 @@ void CDNS::Timestamp::add_time_offset(int64_t offset, uint64_t ticks_per_second)
 
     // (-1 * offset would overflow for the smallest offset)
     if (offset < 0 && ticks + offset < 0)
+        throw std::runtime_error("Adding offset to Timestamp would create invalid Timestamp!");
+
+    if (offset > 0 && ticks > INT64_MAX - offset)
         throw std::runtime_error("Adding offset to Timestamp would create invalid Timestamp!");
 
     ticks += offset;
